@@ -277,6 +277,8 @@ def run(rec, shard, nshards, t):
     rnd = core.rng_for('C06', shard)
     if shard == 0:
         grid(rec)
+        if t != 'quick':
+            core.repo_tests_with_monitors(rec, 'C06')
     total = 4000 if t == 'quick' else 100000
     n = total // nshards
     for i in range(n):
